@@ -6,8 +6,8 @@ import itertools
 import networkx as nx
 
 PROPERTY = "C18"
-NAMES = ["A", "B", "C", "D"]
-ALT = ["Zz", "Ya", "Xb", "Wc"]
+NAMES = ["A", "B", "C", "D", "E", "F", "G"]
+ALT = ["Zz", "Ya", "Xb", "Wc", "Vd", "Ue", "Tf"]
 ALPHABET = []
 
 META = dict(
@@ -16,7 +16,7 @@ META = dict(
               "against its image under a solver-chosen species renaming, reversed reaction order and regenerated ids; "
               "bipartite view (stoichiometry on/off) and species-graph view; id() of the refinement epoch replaced by an "
               "adversarial stub (always equal / always fresh); pairs of independent networks (2 species, <=2 reactions) for "
-              "completeness; CRNCanonicalizer and CRNAutomorphism",
+              "completeness; three concrete symmetric networks (2 sources x 2 sinks with all four conversions; a 2-ring next to a 3-ring; two reversible pairs joined by two conversions) under every species renaming [thorough: and every reaction order]; CRNCanonicalizer and CRNAutomorphism",
         thorough="3 species x 3 reactions (0..1), 4 species x 2 reactions (0..1), rings of 3 and 4 identical reactions",
     ),
     outside=["WLCanonicalizer (approximate by design)", "networks beyond the bounds", "max_depth / timeout early stops"],
@@ -34,10 +34,12 @@ WALL = dict(quick=170, thorough=1500)
 MIN_PATHS = dict(quick=300, thorough=3000)
 
 
-def build(E, pre, ns, nr, cmax, names, rule="r", order=None, unit_ring=None):
+def build(E, pre, ns, nr, cmax, names, rule="r", order=None, unit_ring=None, fixed=None):
     from synkit.CRN.Hypergraph.hypergraph import CRNHyperGraph
 
     rx = []
+    if fixed:
+        return [({int(k): v for k, v in r.items()}, {int(k): v for k, v in p.items()}) for r, p in fixed]
     if unit_ring:
         for j in range(unit_ring):
             rx.append(({j: 1}, {(j + 1) % unit_ring: 1}))
@@ -107,12 +109,36 @@ def iso_maps(G1, G2, nkeys, ekeys):
         return []
     out = []
     v1 = list(n1)
-    for img in itertools.permutations(list(n2)):
-        f = dict(zip(v1, img))
-        if any(n1[v] != n2[f[v]] for v in v1):
-            continue
-        if all((f[u], f[v]) in a2 and a2[(f[u], f[v])] == lab for (u, v), lab in a1.items()):
-            out.append(f)
+    outd1 = {v: sorted(lab for (u, w), lab in a1.items() if u == v) for v in v1}
+    ind1 = {v: sorted(lab for (u, w), lab in a1.items() if w == v) for v in v1}
+    outd2 = {v: sorted(lab for (u, w), lab in a2.items() if u == v) for v in n2}
+    ind2 = {v: sorted(lab for (u, w), lab in a2.items() if w == v) for v in n2}
+    cand = {v: [w for w in n2 if n1[v] == n2[w] and outd1[v] == outd2[w] and ind1[v] == ind2[w]] for v in v1}
+    order = sorted(v1, key=lambda v: len(cand[v]))
+    arcs_of = {v: [(u, w) for (u, w) in a1 if u == v or w == v] for v in v1}
+
+    def rec(i, f, used):
+        if i == len(order):
+            out.append(dict(f))
+            return
+        v = order[i]
+        for w in cand[v]:
+            if w in used:
+                continue
+            f[v] = w
+            ok = True
+            for (x, y) in arcs_of[v]:
+                if x in f and y in f:
+                    if (f[x], f[y]) not in a2 or a2[(f[x], f[y])] != a1[(x, y)]:
+                        ok = False
+                        break
+            if ok:
+                used.add(w)
+                rec(i + 1, f, used)
+                used.discard(w)
+            del f[v]
+
+    rec(0, {}, set())
     return out
 
 
@@ -161,16 +187,18 @@ def canon_summary(hg, include_rule, include_stoich, idmode):
             cmod.id = old
 
 
-def h_canon(E, ns, nr, cmax, unit_ring=None):
+def h_canon(E, ns, nr, cmax, unit_ring=None, fixed=None, rho=False):
     from synkit.CRN.Topo.automorphism import CRNAutomorphism
 
-    rx = build(E, "", ns, nr, cmax, NAMES, unit_ring=unit_ring)
+    rx = build(E, "", ns, nr, cmax, NAMES, unit_ring=unit_ring, fixed=fixed)
     n_rx = len(rx)
     ns_eff = unit_ring or ns
     pi = [int(x) for x in E.perm("pi", ns_eff)]
     hg1 = make_hg(rx, NAMES, "r", list(range(n_rx)))
-    hg2 = make_hg(rx, [ALT[pi[i]] for i in range(ns_eff)], "q", list(reversed(range(n_rx))))
-    info = dict(reactions=rx, renaming=pi)
+    # the second listing of the same network: reversed reaction order, or (rho) a solver-chosen reaction order
+    order2 = [int(x) for x in E.perm("rho", n_rx)] if rho else list(reversed(range(n_rx)))
+    hg2 = make_hg(rx, [ALT[pi[i]] for i in range(ns_eff)], "q", order2)
+    info = dict(reactions=rx, renaming=pi, reaction_order=order2)
     any_aut = False
     for include_rule, include_stoich in ((True, True), (True, False), (False, True)):
         view = dict(include_rule=include_rule, include_stoich=include_stoich)
@@ -246,8 +274,18 @@ def shards(tier, seed):
         dict(h="pair", params=dict(ns=2, nr=1, cmax=2)),
         dict(h="pair", params=dict(ns=2, nr=2, cmax=1)),
     ]
+    # concrete, highly symmetric networks (several refinement cells of equal size / cells that are not one orbit) under
+    # every renaming and, in the thorough tier, every reaction order
+    k22 = [[{"0": 1}, {"2": 1}], [{"0": 1}, {"3": 1}], [{"1": 1}, {"3": 1}], [{"1": 1}, {"2": 1}]]
+    rings23 = [[{"0": 1}, {"1": 1}], [{"1": 1}, {"0": 1}], [{"2": 1}, {"3": 1}], [{"3": 1}, {"4": 1}], [{"4": 1}, {"2": 1}]]
+    rev_pairs = [[{"0": 1}, {"1": 1}], [{"1": 1}, {"0": 1}], [{"2": 1}, {"3": 1}], [{"3": 1}, {"2": 1}], [{"1": 1}, {"3": 1}], [{"2": 1}, {"0": 1}]]
+    sh.append(dict(h="canon", params=dict(ns=4, nr=4, cmax=1, fixed=k22, rho=False)))
+    sh.append(dict(h="canon", params=dict(ns=5, nr=5, cmax=1, fixed=rings23, rho=False)))
+    sh.append(dict(h="canon", params=dict(ns=4, nr=6, cmax=1, fixed=rev_pairs, rho=False)))
     if tier == "thorough":
         sh += [
+            dict(h="canon", params=dict(ns=4, nr=4, cmax=1, fixed=k22, rho=True)),
+            dict(h="canon", params=dict(ns=5, nr=5, cmax=1, fixed=rings23, rho=True)),
             dict(h="canon", params=dict(ns=3, nr=2, cmax=2)),
             dict(h="canon", params=dict(ns=3, nr=3, cmax=1)),
             dict(h="canon", params=dict(ns=4, nr=2, cmax=1)),
